@@ -376,6 +376,17 @@ def search(hints, tier, rng):
             a = np.asarray(node.obj.transform(x, cj)); b = np.asarray(node.obj.merge_chains().transform(x, cj))
             if not np.allclose(a, b, rtol=1e-9, atol=1e-9, equal_nan=True):
                 wit.append(dict(key="merge_chains|" + " ".join(node.tokens)[:120], law="merge_chains preserves the function"))
+            k_ = len(node.children)
+            for (i_, j_) in [(0, 1), (k_ - 1, k_), (0, k_), (1, k_)]:
+                if 0 <= i_ < j_ <= k_:
+                    sub_cond = any(ch.cond for ch in node.children[i_:j_])
+                    try:
+                        s_ = node.obj[i_:j_]
+                        r_ = s_.transform(x, cj if sub_cond else None)
+                        if (s_.cond_shape is not None) != sub_cond:
+                            raise ValueError("declared cond_shape of the slice does not match its members")
+                    except Exception as ex:
+                        wit.append(dict(key=f"chain_slice[{i_}:{j_}]|" + " ".join(node.tokens)[:100], law="a slice of a chain is the chain of the sub-list (shape, cond_shape, function)", exc=repr(ex)[:160]))
             sl = node.obj[:]
             if not np.allclose(a, np.asarray(sl.transform(x, cj)), rtol=1e-9, atol=1e-9, equal_nan=True) or len(node.obj) != len(node.children):
                 wit.append(dict(key="chain_slice|" + " ".join(node.tokens)[:120], law="slicing / len preserve the chain"))
